@@ -97,7 +97,8 @@ class Group:
     def __getitem__(self, key: int | str | Gateway) -> Gateway:
         if isinstance(key, int):
             return self._gateways[key]
-        for gw in self._gateways:
+        # a snapshot: a concurrent _unregister() must not make the scan skip a member
+        for gw in list(self._gateways):
             if gw == key or gw.id == key:
                 return gw
         raise KeyError(key)
